@@ -301,6 +301,30 @@ impl<T: Copy + Number + std::fmt::Debug> Sparse<T> {
 }
 
 impl Sparse<f64> {
+    // The Krylov recurrences below form squared norms and inner products of vectors that are
+    // proportional to b. When the entries of b are so large or so small that those squares
+    // would overflow or underflow, b and x are brought to O(1) by an exact power of two
+    // (which leaves every iterate unchanged up to that factor) and the result is scaled back.
+    fn rhs_scale( b: &Vector<f64> ) -> f64 {
+        let mut max: f64 = 0.0;
+        for i in 0..b.size() {
+            if b[ i ].abs() > max { max = b[ i ].abs(); }
+        }
+        if max == 0.0 || !max.is_finite() || ( max < 1.0e100 && max > 1.0e-100 ) { return 1.0; }
+        let exponent = ( max.log2().floor() as i32 ).clamp( -1000, 1000 );
+        2.0_f64.powi( -exponent )
+    }
+
+    fn solve_scaled<F>( b: &Vector<f64>, x: &mut Vector<f64>, max_iter: usize, scale: f64, solver: F ) -> Result<usize, f64>
+    where F: Fn( &Vector<f64>, &mut Vector<f64> ) -> Result<usize, f64>
+    {
+        let mut xs = x.clone() * scale;
+        let result = solver( &( b.clone() * scale ), &mut xs );
+        // x is left untouched when no iteration was made
+        if max_iter > 0 && result != Ok( 0 ) { *x = xs / scale; }
+        result
+    }
+
     /// Solve the system of equations Ax=b using the biconjugate gradient method 
     /// with a specified maximum number of iterations and tolerance.
     /// itol = 1: relative residual norm
@@ -315,6 +339,10 @@ impl Sparse<f64> {
         }
         if b.size() != x.size() { 
             panic!( "Sparse matrix solve_bicg: b.size() != x.size()." ); 
+        }
+        let scale = Self::rhs_scale( b );
+        if scale != 1.0 {
+            return Self::solve_scaled( b, x, max_iter, scale, |bs, xs| self.solve_bicg( bs, xs, max_iter, tol, itol ) );
         }
         let mut r = b.clone() - self.multiply( x );
         let mut rr = r.clone();
@@ -383,6 +411,10 @@ impl Sparse<f64> {
         if b.size() != x.size() { 
             panic!( "Sparse matrix solve_bicgstab: b.size() != x.size()." ); 
         }
+        let scale = Self::rhs_scale( b );
+        if scale != 1.0 {
+            return Self::solve_scaled( b, x, max_iter, scale, |bs, xs| self.solve_bicgstab( bs, xs, max_iter, tol ) );
+        }
         let mut resid: f64;
         let mut p = Vector::new( self.rows, 0.0 );
         let mut phat = Vector::new( self.rows, 0.0 );
@@ -450,6 +482,10 @@ impl Sparse<f64> {
         if b.size() != x.size() { 
             panic!( "Sparse matrix solve_cg: b.size() != x.size()." ); 
         }
+        let scale = Self::rhs_scale( b );
+        if scale != 1.0 {
+            return Self::solve_scaled( b, x, max_iter, scale, |bs, xs| self.solve_cg( bs, xs, max_iter, tol ) );
+        }
         let mut resid: f64;
         let mut p = Vector::new( self.rows, 0.0 );
         let mut z = Vector::new( self.rows, 0.0 );
@@ -500,6 +536,10 @@ impl Sparse<f64> {
         }
         if b.size() != x.size() { 
             panic!( "Sparse matrix solve_qmr: b.size() != x.size()." ); 
+        }
+        let scale = Self::rhs_scale( b );
+        if scale != 1.0 {
+            return Self::solve_scaled( b, x, max_iter, scale, |bs, xs| self.solve_qmr( bs, xs, max_iter, tol ) );
         }
         let mut resid: f64;
         let mut rho: f64;
